@@ -12,7 +12,7 @@ import (
 	"verifharness/internal/val"
 )
 
-var c08Floor = []string{"depth.2", "depth.3", "inner.empty", "outer.empty", "mid.empty", "ragged", "where", "item.alias", "item.nonidempotent", "item.star", "item.async", "item.userfn", "mix", "mix.keep", "reexec.after-fault", "opt.vars", "opt.constants", "item.aggregate", "item.all-aggregate", "where.aggregate", "reexec", "naming.table-qualified", "naming.alias", "naming.alias-unqualified", "row.shadows-table"}
+var c08Floor = []string{"depth.2", "depth.3", "inner.empty", "outer.empty", "mid.empty", "ragged", "where", "item.alias", "item.nonidempotent", "item.star", "item.async", "item.userfn", "mix", "mix.keep", "reexec.after-fault", "opt.vars", "opt.constants", "item.aggregate", "item.all-aggregate", "where.aggregate", "reexec", "naming.table-qualified", "naming.alias", "naming.alias-unqualified", "row.shadows-table", "where.in-computed"}
 
 func init() {
 	fw.Register(&fw.Prop{
@@ -177,6 +177,16 @@ func c08Run(c *fw.Case) {
 	if force == "where" || force == "mix" || c.Chance(0.6) {
 		where = " WHERE " + gen.RenderPred(pg.Gen(), gen.RenderOpts{Qualifier: qual})
 		feats = append(feats, "where")
+	}
+	if force == "where.in-computed" || (force == "" && c.Chance(0.12)) {
+		// an IN list whose items are computed from the row at hand
+		in := qcols(gen.Pick(c.R, []string{"n1 IN (n2 + 1, n2 - 1, n2)", "n1 NOT IN (n2 + 1, n2 * 2, 3)", "n2 IN (n1, n1 + 1, n1 + 2, 0 - n1)", "n1 + 1 IN (n2, n2 + 1, n2 + 2)"}))
+		if where == "" {
+			where = " WHERE " + in
+		} else {
+			where = " WHERE " + in + gen.Pick(c.R, []string{" AND (", " OR ("}) + strings.TrimPrefix(where, " WHERE ") + ")"
+		}
+		feats = append(feats, "where", "where.in-computed")
 	}
 	var items []string
 	switch {
